@@ -50,6 +50,7 @@ class ProxyLeak(BaseException):
 
 
 CUR = None  # the active PathState (symbolic) or ConcreteState
+RESETTERS = []  # callables restoring process-wide state of the code under test before every path (re-execution must be deterministic)
 DELTA_MODE = False  # when True every real +,-,*,/ and sqrt result is exact*(1+delta), |delta| <= 2^-53
 
 
@@ -144,6 +145,124 @@ def wrap(t):
     return SymReal(t)
 
 
+def _is_square(t):
+    if z3.is_app_of(t, z3.Z3_OP_POWER):
+        e = t.arg(1)
+        return z3.is_rational_value(e) and e.as_fraction() == 2 or z3.is_int_value(e) and e.as_long() == 2
+    if z3.is_mul(t):
+        ch = t.children()
+        consts = [c for c in ch if z3.is_rational_value(c) or z3.is_int_value(c)]
+        rest = [c for c in ch if not (z3.is_rational_value(c) or z3.is_int_value(c))]
+        if any(c.as_fraction() < 0 for c in consts):
+            return False
+        if len(rest) == 1:
+            return _is_square(rest[0])
+        return len(rest) == 2 and rest[0].eq(rest[1])
+    return False
+
+
+def is_sum_of_squares(t):
+    """syntactically a sum of squares (with non-negative constant factors / summands): never negative"""
+    t = z3.simplify(t)
+    if z3.is_rational_value(t) or z3.is_int_value(t):
+        return t.as_fraction() >= 0
+    parts = t.children() if z3.is_add(t) else [t]
+    return all(_is_square(p) or ((z3.is_rational_value(p) or z3.is_int_value(p)) and p.as_fraction() >= 0) for p in parts)
+
+
+def _is_linear(t):
+    """no product of two non-constant factors, no division by a non-constant, no uninterpreted function applications"""
+    stack, seen = [t], set()
+    while stack:
+        x = stack.pop()
+        if x.get_id() in seen:
+            continue
+        seen.add(x.get_id())
+        if z3.is_mul(x):
+            nonconst = [c for c in x.children() if not (z3.is_rational_value(c) or z3.is_int_value(c))]
+            if len(nonconst) > 1:
+                return False
+        elif z3.is_app_of(x, z3.Z3_OP_POWER) or z3.is_app_of(x, z3.Z3_OP_DIV) or z3.is_app_of(x, z3.Z3_OP_IDIV) or z3.is_app_of(x, z3.Z3_OP_MOD):
+            return False
+        elif z3.is_app(x) and x.decl().kind() == z3.Z3_OP_UNINTERPRETED and x.num_args() > 0:
+            return False
+        stack.extend(x.children())
+    return True
+
+
+class Abstractor:
+    """Linear abstraction of path conditions (DESIGN 2.2): every product of two non-constant terms becomes an application
+    of an uninterpreted function umul(a, b) (arguments ordered, so commutative), with the sign / zero lemmas of that
+    product.  The abstraction only removes information: a branch it refutes is really infeasible."""
+
+    def __init__(self):
+        self.cache = {}
+        self.umul = z3.Function("umul", z3.RealSort(), z3.RealSort(), z3.RealSort())
+        self.imul = z3.Function("imul", z3.IntSort(), z3.IntSort(), z3.IntSort())
+        self.upow = z3.Function("upow", z3.RealSort(), z3.RealSort(), z3.RealSort())
+        self.udiv = z3.Function("udiv", z3.RealSort(), z3.RealSort(), z3.RealSort())
+        self.seen_products = set()
+
+    def _const(self, c):
+        return z3.is_rational_value(c) or z3.is_int_value(c) or z3.is_algebraic_value(c)
+
+    def _prod(self, a, b, lemmas):
+        if a.get_id() > b.get_id():
+            a, b = b, a
+        f = self.imul if z3.is_int(a) and z3.is_int(b) else self.umul
+        if f is self.umul:
+            a, b = to_real(a), to_real(b)
+        m = f(a, b)
+        key = m.get_id()
+        if key not in self.seen_products:
+            self.seen_products.add(key)
+            lemmas.append(z3.Implies(z3.And(a > 0, b > 0), m > 0))
+            lemmas.append(z3.Implies(z3.And(a < 0, b < 0), m > 0))
+            lemmas.append(z3.Implies(z3.And(a > 0, b < 0), m < 0))
+            lemmas.append(z3.Implies(z3.And(a < 0, b > 0), m < 0))
+            lemmas.append(z3.Implies(z3.Or(a == 0, b == 0), m == 0))
+            if a.eq(b):
+                lemmas.append(m >= 0)
+        return m
+
+    def ab(self, t, lemmas):
+        k = t.get_id()
+        if k in self.cache:
+            return self.cache[k]
+        if z3.is_var(t) or (z3.is_app(t) and t.num_args() == 0):
+            r = t
+        elif z3.is_quantifier(t):
+            r = z3.BoolVal(True)
+        else:
+            ch = [self.ab(c, lemmas) for c in t.children()]
+            if z3.is_mul(t):
+                consts = [c for c in ch if self._const(c)]
+                rest = [c for c in ch if not self._const(c)]
+                if len(rest) <= 1:
+                    r = t.decl()(*ch) if len(ch) > 1 else ch[0]
+                else:
+                    m = rest[0]
+                    for x in rest[1:]:
+                        m = self._prod(m, x, lemmas)
+                    r = m
+                    for c in consts:
+                        r = (to_real(c) if z3.is_real(r) else c) * r
+            elif z3.is_app_of(t, z3.Z3_OP_POWER):
+                if self._const(ch[1]) and ch[1].as_fraction() == 2:
+                    r = self._prod(ch[0], ch[0], lemmas)
+                else:
+                    r = self.upow(to_real(ch[0]), to_real(ch[1]))
+            elif z3.is_app_of(t, z3.Z3_OP_DIV) and not self._const(ch[1]):
+                r = self.udiv(to_real(ch[0]), to_real(ch[1]))
+            else:
+                try:
+                    r = t.decl()(*ch)
+                except z3.Z3Exception:
+                    r = t
+        self.cache[k] = r
+        return r
+
+
 def to_real(t):
     return z3.ToReal(t) if z3.is_int(t) else t
 
@@ -214,6 +333,8 @@ class _ArithMixin:
             return NotImplemented
         if isinstance(o, SymEnum):
             return NotImplemented
+        if isinstance(o, float) and not isinstance(o, SymReal) and o in (float("inf"), float("-inf")):
+            return bool(op(0.0, o))            # every (finite) real compares with an infinity like 0 does
         a, b = _arith_pair(self, o)
         return SymBool(z3.simplify(op(a, b)))
 
@@ -669,6 +790,9 @@ class PathState:
         self.choices = {}            # name -> chosen python value index
         self.solver = z3.Solver()
         self.solver.set("timeout", FEAS_TIMEOUT_MS)
+        self.lin = z3.Solver()      # linear abstraction of the path condition (products purified): fast feasibility
+        self.lin.set("timeout", FEAS_TIMEOUT_MS)
+        self.abst = Abstractor()
         self.fresh_n = 0
         self._sqrt_cache = {}
         self._div_cache = {}
@@ -740,7 +864,7 @@ class PathState:
             s = z3.Real(f"sqrt!{self.fresh_n}")
             self._sqrt_cache[key] = s
         s = self._sqrt_cache[key]
-        if bool(SymBool(z3.simplify(tx < 0))):
+        if not is_sum_of_squares(tx) and bool(SymBool(z3.simplify(tx < 0))):
             if complex_on_negative:
                 raise ProxyLeak("x ** 0.5 with x < 0 feasible (complex result)")
             raise modelled(ValueError("math domain error"))
@@ -825,6 +949,11 @@ class PathState:
     def _add(self, t):
         self.pc.append(t)
         self.solver.add(t)
+        lem = []
+        at = self.abst.ab(t, lem)
+        self.lin.add(at)
+        for l_ in lem:
+            self.lin.add(l_)
 
     def assume(self, cond):
         t = _b(cond)
@@ -846,8 +975,22 @@ class PathState:
             if ex.deadline and time.time() > ex.deadline:
                 ex.report.budget_hit = True
                 raise Budget()
-            rt = self._check(t)
-            rf = self._check(z3.Not(t))
+            # feasibility in the linear abstraction first (fast, over-approximating: a refuted branch is infeasible) ...
+            lem = []
+            at = self.abst.ab(t, lem)
+            for l_ in lem:
+                self.lin.add(l_)
+            ex.report.solver_calls += 2
+            rt = self.lin.check(at)
+            rf = self.lin.check(z3.Not(at))
+            # ... then, only when both survive, the exact path condition with a short budget (`unknown` = feasible)
+            if rt != z3.unsat and rf != z3.unsat and ex.exact_feas_ms > 0:
+                self.solver.set("timeout", ex.exact_feas_ms)
+                if self._check(t) == z3.unsat:
+                    rt = z3.unsat
+                elif self._check(z3.Not(t)) == z3.unsat:
+                    rf = z3.unsat
+                self.solver.set("timeout", FEAS_TIMEOUT_MS)
             ft, ff = rt != z3.unsat, rf != z3.unsat
             if not ft and not ff:
                 raise Infeasible()
@@ -965,11 +1108,8 @@ class PathState:
         return d
 
     def feasible(self):
-        r = self._check()
-        if r == z3.unknown:
-            v, _, _, _ = solve_exact(self.pc, 5000, want_model=False)
-            return v != "unsat"
-        return r == z3.sat
+        """end-of-path reachability marker (vacuity guard): decided in the linear abstraction; `unknown` counts as reachable"""
+        return self.lin.check() != z3.unsat
 
     def note(self, key, value):
         pass
@@ -983,8 +1123,10 @@ _MISSING = object()
 
 
 class Explorer:
-    def __init__(self, program, name=None, budget_s=None, max_paths=None, vc_timeout_ms=VC_TIMEOUT_MS, shard=None):
+    def __init__(self, program, name=None, budget_s=None, max_paths=None, vc_timeout_ms=VC_TIMEOUT_MS, shard=None,
+                 exact_feas_ms=300):
         self.program = program
+        self.exact_feas_ms = exact_feas_ms
         self.shard = shard          # (j, m, k): this explorer owns the paths whose first k decisions hash to j mod m
         self.report = Report(name or getattr(program, "__name__", "contract"))
         self.stack = []
@@ -1038,11 +1180,15 @@ class Explorer:
                 rep.budget_hit = True
                 break
             prefix = self.stack.pop()
+            for reset in RESETTERS:
+                reset()
             st = PathState(self, prefix)
             CUR = st
             rep.paths += 1
             try:
                 self.program(st)
+                if len(st.decisions) < len(prefix):
+                    raise ProxyLeak(f"non-deterministic re-execution: {len(prefix)} decisions recorded, {len(st.decisions)} replayed")
                 if self.owns(st.branches):
                     self.commit(st)
                     if st.feasible():
@@ -1156,6 +1302,8 @@ class ConcreteState:
 def run_concrete(program, values):
     """Run a contract program on concrete inputs against the real code. Returns the ConcreteState."""
     global CUR
+    for reset in RESETTERS:
+        reset()
     st = ConcreteState(values)
     old = CUR
     CUR = st
